@@ -18,7 +18,7 @@ RULE = ('case = one rule AST (C01 generator plus targeted shapes: look-ahead wil
         'renders in exponent notation are the open finding K19 (excluded by construction, witness run separately). Non-trivial = >= 1 wildcard; distinct by '
         '(rule text, path).')
 ASSUMPTIONS = ['reference matcher vlib/rules.py is trusted (where the router matches a path the reference does not, the router\'s own assignment is round-tripped)', 'empty wildcard bindings are an unspecified zone (counted)',
-               'float values >= 1e16 or < 1e-4 in magnitude are excluded from the search (open known finding K19) and counted']
+               'float values >= 1e16 or < 1e-4 in magnitude are excluded from the search (open known finding K19) and counted', 'float values whose matched text url() re-spells (5 -> 5.0, 1.50 -> 1.5) behind a look-ahead wildcard are excluded and counted (open known finding K19-float-respelled-after-lookahead)']
 
 
 def _val(draw, seg):
@@ -88,6 +88,25 @@ def _neg_zero_after_wildcard(ast, b):
     return False
 
 
+def _float_text_after_lookahead(ast, b):
+    """A float wildcard bound to a text that url() will not reproduce (str(float(t)) != t, e.g. '5' -> '5.0', '1.50' -> '1.5') that stands after a
+    wildcard whose filter looks ahead (path, or re with a look-ahead): the re-spelled number can move the point where that earlier wildcard ends."""
+    ws = [i for i, s in enumerate(ast) if s[0] == 'w']
+    seen_la = False
+    for k, i in enumerate(ws):
+        s = ast[i]
+        if s[2] == 'float' and seen_la:
+            t = b[k][1]
+            try:
+                if str(float(t)) != t:
+                    return True
+            except ValueError:
+                pass
+        if s[2] == 'path' or (s[2] == 're' and '(?=' in (s[3] or '')):
+            seen_la = True
+    return False
+
+
 def check_case(ctx, case, witness=False):
     from ombott.router.radirouter import RadiRouter
     ast = R.merge(case['ast'])
@@ -128,6 +147,9 @@ def check_case(ctx, case, witness=False):
         return
     if not witness and _neg_zero_after_wildcard(ast, b):
         ctx.exclude('int_negative_zero_after_wildcard(K19-int-negative-zero)')
+        return
+    if not witness and _float_text_after_lookahead(ast, b):
+        ctx.exclude('float_respelled_after_lookahead_wildcard(K19-float-respelled-after-lookahead)')
         return
     router = RadiRouter()
     # other rules registered before the one under test (sharing prefixes / wildcard positions with it): whatever they leave in the tree
@@ -267,6 +289,17 @@ def witness_negzero(ctx):
     ctx.note('K19-int-negative-zero witness passes on this tree (finding no longer reproduces)')
 
 
+def witness_float_lookahead(ctx):
+    case = {'ast': [['lit', '/'], ['w', None, 'path', None], ['lit', '.'], ['w', 'a', 'float', None]], 'choice': [], 'spell': 0, 'path': '/a/b.1.5'}
+    try:
+        check_case(ctx, case, witness=True)
+    except CheckFailure as f:
+        if "= 'a/b.1.5.0' resolves with {'a': 0.0}" in str(f) and ctx.known('K19-float-respelled-after-lookahead'):
+            return
+        raise
+    ctx.note('K19-float-respelled-after-lookahead witness passes on this tree (finding no longer reproduces)')
+
+
 def run(ctx):
     for name, case in load_corpus(ID):
         ctx.guarded(check_case, case)
@@ -274,6 +307,7 @@ def run(ctx):
     if ctx.shard == 0:
         ctx.guarded(lambda c, _: witness_k19(c), {'witness': 'K19'})
         ctx.guarded(lambda c, _: witness_negzero(c), {'witness': 'K19-int-negative-zero'})
+        ctx.guarded(lambda c, _: witness_float_lookahead(c), {'witness': 'K19-float-respelled-after-lookahead'})
         lit = lambda t: ['lit', t]   # noqa
         # size grid: rules with n wildcards (all anonymous / all named / alternating), n = 1..14
         for n in range(1, 15):
@@ -329,7 +363,7 @@ def run(ctx):
 
 def replay(ctx, case):
     if 'witness' in case:
-        return witness_negzero(ctx) if 'zero' in case['witness'] else witness_k19(ctx)
+        return witness_float_lookahead(ctx) if 'lookahead' in case['witness'] else witness_negzero(ctx) if 'zero' in case['witness'] else witness_k19(ctx)
     if 'threaded' in case:
         return check_threaded(ctx, case)
     check_case(ctx, case)
